@@ -12,7 +12,7 @@ PLAN = {}
 NOT_APPLICABLE = {
     "C07": "bdd_complexity: level_complexity uses step_by + Vec::retain/sort/dedup + closures, outside Verus's subset; CBMC does not finish one level of one word in 15 min; a contract on those helpers would assume the node count (DESIGN.md 10)",
     "C14": "Sop and/or/not/simplify: Vec::retain/sort/dedup/Iterator::all with capturing closures are outside Verus's subset; Kani runs out of memory (62 GB) on Sop::and of 2x1 cubes and does not finish !Sop of one cube in 20 min (DESIGN.md 10); the cube algebra they rely on is proved under C12",
-    "C16": "Display of cubes/forms is text produced through core::fmt and read back by a parser: no fmt/str reasoning in Verus, one format! of one integer costs CBMC 75 s; a contract over an assumed write! would prove only concatenation order (DESIGN.md 10)",
+    "C16": "Display of cubes/forms is text produced through core::fmt and read back by a parser: no fmt/str reasoning in Verus. Measured with Kani (design-probes/kani/c16_*_probe.rs): Cube Display read back by a harness-side parser/evaluator is decidable for n <= 3 (150 s per triple), but Ecube, Soes, Sop and Esop Display (Vec<String> + format! + join) time out after 20 min or exhaust memory even for one or two terms over 2 variables; a claim covering one of the five types would not decide the property (DESIGN.md 10)",
     "C18": "MIP optimizers: optimality is a property of the external HiGHS solver behind FFI plus an ILP model; no contract within reach of Verus/Kani can express or decide it, and the optim-mip dependencies are not available offline (DESIGN.md 10)",
 }
 
@@ -369,3 +369,4 @@ PLAN["C15"] = {
     ],
     "scope_note": "bounded: see per-harness scopes",
 }
+
